@@ -171,6 +171,19 @@ def run(ctx):
         kstats = {}
         for job, o in zip(jk, outs): account(ctx, kstats, job, o, None, backend + ' k=2 custom set (n=500, l=2, Bgbit=10)', build, 80)
         ctx.hypotheses['%s/%s custom k=2 set' % (backend, build)] = summary(kstats)
+    # the constant a key adds to every gate output: the noises of its key-switching rows are recentred to sum to zero, so the average contribution of a
+    # key switch, -(1/base) * (sum of the row errors), is zero for EVERY key; measured with the secret keys on 16 (thorough: 64) generated keys per set
+    bexe0 = vlib.build_harness('boot_drv.cpp', vlib.build_lib('optim'), 'spqlios-fma', 'optim')
+    for lam in (128, 80):
+        ln = 'ksbias %d %d %d' % (lam, ctx.seed * 100 + lam, 16 if not thorough else 64)
+        o = vlib.run_lines(bexe0, [ln], timeout=3600)[0]; ctx.count(ln)
+        v = [int(x) for x in o.split()] if o and not o.startswith('CRASH') else None
+        lim = 0.25 * BOUND[lam]
+        if v is None: ctx.report('ksbias-crash', ln + ' died: ' + o[:80], {'case': ln})
+        elif v[0] / T32 > lim:
+            ctx.report('noise-mean', '%d-bit set: a generated key-switching key adds a constant of %.6f to the phase of every gate output evaluated under it (average contribution of its row errors; %d keys tried, the largest shown), '
+                       'the bound on |mean| is %.6f: the row noises are not recentred over the rows that are used' % (lam, v[0] / T32, len(v) - 1, lim), {'case': ln, 'biases_units': v[1:], 'bound': lim, 'param_set': lam})
+        else: ctx.hypotheses['%d-bit set: max |constant added by a generated key-switching key| over %d keys (torus)' % (lam, len(v) - 1)] = v[0] / T32
     ctx.sample({'statistics': {k: v for k, v in list(ctx.hypotheses.items())[:2]}})
 
 def mom(st):
